@@ -337,6 +337,14 @@ def _add(module: Module, val: ModuleAttr) -> ModuleAttr:
         # Nonetheless gotta raise an error if we get here, somehow.
         _attr_type_error(val)
 
+    # If the name is already taken, its previous holder is replaced: remove it from its type-specific container
+    prev = module.namespace.get(val.name, None)
+    if prev is not None and prev is not val:
+        _remove(module, prev, val.name)
+    # An attribute has a single name. If `val` is already here under another one, this is a re-naming.
+    for oldname in [n for n, attr in module.namespace.items() if attr is val]:
+        _remove(module, val, oldname)
+
     # Add it to the module namespace, and the type-specific container
     type_ctr[val.name] = val
     module.namespace[val.name] = val
@@ -359,6 +367,21 @@ def _add(module: Module, val: ModuleAttr) -> ModuleAttr:
 
     # And return our newly-added attribute
     return val
+
+
+def _remove(module: Module, val: ModuleAttr, name: str) -> None:
+    """Remove attribute `val`, stored as `name`, from the namespace and from its type-based container."""
+    module.namespace.pop(name, None)
+    for ctr in (
+        module.ports,
+        module.signals,
+        module.instances,
+        module.instarrays,
+        module.instbundles,
+        module.bundles,
+    ):
+        if ctr.get(name, None) is val:
+            ctr.pop(name)
 
 
 def _is_module_attr(val: Any) -> bool:
